@@ -477,7 +477,9 @@ PROPS["C20"] = {
             "dropped), and TCP over loopback. Oracle: position-keyed PRF bytes in both directions; every read checked at its absolute position, "
             "never ahead of what was written; Ok(0) only at the length the writer finished at; with a vanished peer or forgotten secrets the "
             "operations fail within idle timeout (+5 s); nothing may still be pending at the virtual deadline. A stream that reports an "
-            "error although its peer is alive is counted (c20.observed.*), not flagged: C20 promises exactness or a prompt error, not delivery. "
+            "error although its peer is alive is counted (c20.observed.*), not flagged, while random loss is going on (C20 promises exactness or a "
+            "prompt error, not delivery); it is a violation when the faults were finite - at most two named datagrams dropped on an otherwise "
+            "perfect network, or none. "
             "Non-trivial = faults were actually injected or sizes above one packet; distinct = hash of the scenario's feature vector.",
     "assumptions": ["TCP faults are application-side only (early drop, tiny reads, half-close)", "MTU above 8950 is clamped by the crate"],
     "tiers": {"quick": [_dc("c20", 40)], "thorough": [_dc("c20", 1200)]},
